@@ -27,7 +27,7 @@ var jNumbers = []string{"0", "-0", "1", "-1", "42", "9007199254740992", "9007199
 
 var jStringPieces = []string{"", "a", "hello", `\u0000`, `\"`, `\\`, `\/`, `\b\f\n\r\t`, `\u0001\u001f`, "\u007f", "  ", "\u00e9", `\u00e9`,
 	"\u65e5\u672c\u8a9e", "\U0001F600", `\ud83d\ude00`, "<script>&amp;</script>", "\U0010FFFF", `\uffff`, "{}", "[", `\u0000\u0000`, "null", "\u2028", "\u2029", `\u2028`,
-	`\\u0000`, "'", "`", "%s%d", "\ufeff", "\u00a0", "  leading and trailing  ", "\u0080", "\u07ff\u0800", `\uD834\uDD1E`}
+	`\\u0000`, `\\u003c`, `\\u003e\\u0026`, `\\u2028`, `\\n`, `\\\\`, `\u003c\u003e\u0026`, "'", "`", "%s%d", "\ufeff", "\u00a0", "  leading and trailing  ", "\u0080", "\u07ff\u0800", `\uD834\uDD1E`}
 
 func (g *JGen) Number() string {
 	if g.R.Intn(3) == 0 {
